@@ -4,7 +4,7 @@ From BBF Require Import Base.Prelude Base.Names Base.Bits Spec.Sem
      Proofs.ExprProofs Proofs.TableProofs Proofs.QuantProofs Proofs.NfProofs Proofs.DdProofs Proofs.BddProofs Proofs.BddOps
      Proofs.ConvProofs Proofs.RenderProofs Proofs.EnumProofs Proofs.CountProofs Proofs.EnumAgree.
 From BBF Require Import Model.Lexer Model.Parser Model.Display Model.Render Model.Csv Model.Prog Proofs.ProgProofs Proofs.ConvChain Proofs.ObsProofs.
-From BBF Require Import Model.Iter Proofs.IterProofs.
+From BBF Require Import Model.Iter Proofs.IterProofs Model.Extra Proofs.ExtraProofs.
 Theorem C10_domain_size : forall n, length (points n) = 2 ^ n.
 Proof. exact points_length. Qed.
 Print Assumptions C10_domain_size.
@@ -147,6 +147,14 @@ Theorem C10_iter_partly_consumed : forall o n,
   obj_img_rest o n = length (skipn (S (S n)) (obj_image o)).
 Proof. intros o n. exact (conj (obj_dom_rest_spec o n) (obj_img_rest_spec o n)). Qed.
 Print Assumptions C10_iter_partly_consumed.
+
+(* the public boolean_point_to_valuation of expressions and tables: the sorted inputs paired with the point's
+   values, and None for every point of another length *)
+Theorem C10_point_to_valuation : forall vars p,
+  (length p = length vars -> point_valuation vars p = Some (combine vars p)) /\
+  (length p <> length vars -> point_valuation vars p = None).
+Proof. exact point_valuation_spec. Qed.
+Print Assumptions C10_point_to_valuation.
 
 Example C10_iter_example :
   steps e_sup_next 3 (e_it_new (Or [Lit [97%N]; Lit [98%N]])) = [Some [false; true]; Some [true; false]; Some [true; true]]
